@@ -18,6 +18,7 @@ MAX_STEPS = 100000
 DIRECTION_SENT: dict[str, int] = {}
 DIRECTION_SUBSCRIBED: dict[str, int] = {}
 DIRECTION_FLAGS: list[dict[str, Any]] = []
+_CLIENTS_MADE = 0
 
 
 class CallRec:
@@ -95,6 +96,7 @@ class Sim:
         self.user_on_stop: list[tuple[int, float, str, bool]] = []
         self.packet_hook: Any = None
         self.harness_errors: list[str] = []
+        self.debug_clients = 0
         self.loop.set_exception_handler(self._exc_handler)
 
     # ------------------------------------------------------------------ plumbing
@@ -275,7 +277,15 @@ class Sim:
     def client(self, address: str = "10.0.0.1", port: int = 6053, password: str | None = None, **kw: Any) -> Any:
         from aioesphomeapi import APIClient
 
-        return APIClient(address, port, password, **kw)
+        global _CLIENTS_MADE
+        _CLIENTS_MADE += 1
+        cli = APIClient(address, port, password, **kw)
+        if _CLIENTS_MADE % 4 == 3:
+            # every 4th client of the process runs with the library's debug flag on: the debug-only branches (extra logging, but also
+            # control flow that differs, e.g. in the keep-alive sender) are part of the code under test
+            cli.set_debug(True)
+            self.debug_clients += 1
+        return cli
 
     # ------------------------------------------------------------------ harness calls
     def call(self, name: str, factory: Callable[[], Any], **meta: Any) -> CallRec:
